@@ -1,12 +1,12 @@
 //! A *world* is a value: everything the simulated run of the `jaq` binary can observe.
 //!
-//! Paths are relative to the sandbox root. The literal string `@ROOT` inside argv,
+//! Paths are relative to the sandbox root. The literal string `/@ROOT` inside argv,
 //! environment values, symlink targets and file contents marked `subst` is replaced by the
 //! absolute sandbox root when the world is materialised, and replaced back in everything the
 //! run reports, so histories do not depend on where the sandbox lives.
 use serde::{Deserialize, Serialize};
 
-pub const ROOT_TOKEN: &str = "@ROOT";
+pub const ROOT_TOKEN: &str = "/@ROOT";
 
 /// Bytes that serialise as text when they are UTF-8 and as base64 otherwise.
 #[derive(Clone, Debug, PartialEq, Eq, Hash, Default, PartialOrd, Ord)]
@@ -70,8 +70,10 @@ impl From<String> for Blob {
 pub enum Kind {
     File,
     Dir,
-    /// target; `@ROOT` is substituted
+    /// target; `/@ROOT` is substituted
     Symlink(String),
+    /// another name (hard link) of the regular file at this root-relative path
+    Hardlink(String),
 }
 
 #[derive(Clone, Debug, Serialize, Deserialize, PartialEq, Eq)]
@@ -98,6 +100,14 @@ impl FileSpec {
             kind: Kind::Dir,
             bytes: Blob::default(),
             mode: 0o755,
+        }
+    }
+    pub fn hardlink(path: impl Into<String>, target: impl Into<String>) -> Self {
+        Self {
+            path: path.into(),
+            kind: Kind::Hardlink(target.into()),
+            bytes: Blob::default(),
+            mode: 0o644,
         }
     }
     pub fn symlink(path: impl Into<String>, target: impl Into<String>) -> Self {
